@@ -357,8 +357,8 @@ Proof. unfold step. rewrite map_length, seq_length. reflexivity. Qed.
 Lemma iterate_length T p n : length p = length T -> length (iterate T p n) = length T.
 Proof. destruct n; intros H; cbn [iterate]; [exact H|apply step_length]. Qed.
 
-Lemma nth_step T p j : (j < length T)%nat -> nth j (step T p) 0 = vecmat p T j.
-Proof. intros H. unfold step. apply BuildersProofs.nth_map_seq. exact H. Qed.
+Lemma nth_step T p j : (j < length T)%nat -> nth j (step T p) 0 == vecmat p T j.
+Proof. intros H. unfold step. rewrite BuildersProofs.nth_map_seq by exact H. apply Qred_correct. Qed.
 
 Lemma vecmat_ext p q T j :
   (forall i, (i < length T)%nat -> nth i p 0 == nth i q 0) -> vecmat p T j == vecmat q T j.
@@ -502,7 +502,7 @@ Theorem step_conserves_total : forall T p,
 Proof.
   intros T p Hsq HL Hrow. unfold step.
   transitivity (qsum (map (fun j => qsum (map (fun i => nth i p 0 * ent T i j) (seq 0 (length T)))) (seq 0 (length T)))).
-  { reflexivity. }
+  { apply BuildersProofs.qsum_map_ext. intros j _. apply Qred_correct. }
   rewrite BuildersProofs.qsum_swap.
   assert (Hp : qsum p == qsum (map (fun i => nth i p 0) (seq 0 (length T)))).
   { rewrite <- HL, <- BuildersProofs.list_as_map_nth. reflexivity. }
